@@ -1,4 +1,4 @@
-// finding=F116 property=C16 status=known kind=exec-spirv
+// finding=F116 property=C16 status=fixed kind=exec-spirv
 // front end: a call to a user function whose name starts with `texture` is lowered as a texture built-in: the call and the store using its result disappear
 // expect 0,0[0] = 8
 @group(0) @binding(0) var<storage,read_write> o: array<u32,64>;
